@@ -7,4 +7,5 @@ NEXT Next
 INVARIANT Inv
 INVARIANT ChunkIndependent
 INVARIANT Emit
+PROPERTY StepOK
 CHECK_DEADLOCK FALSE
